@@ -27,6 +27,9 @@ type histOpts struct {
 	byteAt    int
 	peekAt    int
 	ntlPair   int // macro: Parse(NoTrailingLiterals) directly followed by another Parse
+	// shrinkPair: macro: (parse a few blocks, Shrink) two or three times while
+	// unparsed data is left, then Parse
+	shrinkPair int
 	ntl       int // percentage of Parse calls with NoTrailingLiterals
 	ntlAllPct int // percentage of histories in which every Parse call carries NoTrailingLiterals
 	faults    bool
@@ -60,7 +63,7 @@ func defaultHistOpts() histOpts {
 	return histOpts{
 		maxOps: 24, maxText: 600,
 		write: 8, fill: 6, readFrom: 4, parse: 12, drain: 6, shrink: 6,
-		resetNil: 1, resetDat: 1, ntl: 30, ntlAllPct: 6, ntlPair: 3, tinyPct: 12, zeroPct: 30, uniformPct: 12, overReset: true,
+		resetNil: 1, resetDat: 1, ntl: 30, ntlAllPct: 6, ntlPair: 3, shrinkPair: 3, tinyPct: 12, zeroPct: 30, uniformPct: 12, overReset: true,
 	}
 }
 
@@ -170,7 +173,7 @@ func genParserHistory(t *rapid.T, x *parserExec, o histOpts) {
 			}
 		} else {
 			op = weighted(t, "op", o.write, o.fill, o.parse, o.drain, o.shrink, o.readFrom,
-				o.parseNil, o.resetNil, o.resetDat, o.readAt, o.byteAt, o.peekAt, o.ntlPair, o.resetDat)
+				o.parseNil, o.resetNil, o.resetDat, o.readAt, o.byteAt, o.peekAt, o.ntlPair, o.resetDat, o.shrinkPair)
 		}
 		if x.cfg.Kind == "BUF" && rapid.IntRange(0, 14).Draw(t, "bufReinit") == 0 {
 			// a bare ParserBuffer is initialised again (a value from a
@@ -225,7 +228,15 @@ func genParserHistory(t *rapid.T, x *parserExec, o histOpts) {
 			}
 			data := src.next(n)
 			rs := genReaderScript(t, "rs", data, o.faults)
-			if rapid.IntRange(0, 7).Draw(t, "rsMulti") == 0 {
+			if rapid.IntRange(0, 15).Draw(t, "rsBuffer") == 0 {
+				// a *bytes.Buffer, in a third of the cases an empty one
+				rs.Events, rs.Poll, rs.Piece = nil, 0, 0
+				if rapid.IntRange(0, 2).Draw(t, "rsBufferEmpty") == 0 {
+					src.unread(n)
+					n, data, rs.Data = 0, nil, nil
+				}
+				rs.Multi = []MultiPart{{N: len(data), Kind: "buffer"}}
+			} else if rapid.IntRange(0, 7).Draw(t, "rsMulti") == 0 {
 				rs.Events, rs.Poll, rs.Piece = nil, 0, 0
 				for k := rapid.IntRange(1, 4).Draw(t, "rsParts"); k > 0; k-- {
 					rs.Multi = append(rs.Multi, MultiPart{
@@ -285,6 +296,14 @@ func genParserHistory(t *rapid.T, x *parserExec, o histOpts) {
 			}
 			x.step(POp{Op: "reset", Data: src.next(n2), Cap: rapid.SampledFrom(caps).Draw(t, "rp2Cap"), Reuse: rapid.Bool().Draw(t, "rp2Reuse")})
 			lastReset = n2
+			x.step(POp{Op: "parse", Flags: genFlags(t, o)})
+		case 14: // macro: (a few blocks parsed, Shrink) two or three times with unparsed data left, then Parse
+			for k := rapid.IntRange(2, 3).Draw(t, "spRounds"); k > 0 && !x.dead; k-- {
+				for j := rapid.IntRange(1, 3).Draw(t, "spParses"); j > 0 && x.unparsed() > 0 && !x.dead; j-- {
+					x.step(POp{Op: "parse", Flags: genFlags(t, o)})
+				}
+				x.step(POp{Op: "shrink"})
+			}
 			x.step(POp{Op: "parse", Flags: genFlags(t, o)})
 		case 9:
 			off := genOffset(t, x)
